@@ -8,7 +8,8 @@ run() { # patch props expect(violation|quiet)
     out=$(scripts/try_seed.sh "$1" $p 2>&1)
     if echo "$out" | grep -q "PATCH DOES NOT APPLY\|REFUSING"; then echo "SKIP  $1 ($p): $(echo "$out" | head -1)"; fail=1; continue; fi
     if echo "$out" | grep -q "^VIOLATION property=$p "; then got=violation; else got=quiet; fi
-    if [ $got = $3 ]; then echo "ok    $(basename $1) [$p] -> $got"; else echo "WRONG $(basename $1) [$p] -> $got, expected $3"; echo "$out" | head -5; fail=1; fi
+    n=$(basename $1); [ "$n" = patch.diff ] && n=$(basename $(dirname $1))
+    if [ $got = $3 ]; then echo "ok    $n [$p] -> $got"; else echo "WRONG $n [$p] -> $got, expected $3"; echo "$out" | head -5; fail=1; fi
   done
 }
 for m in selftest/mutants/*.diff; do run $m ${m%.diff}.props violation; done
